@@ -94,7 +94,7 @@ def interpret(node, rm):
             if isinstance(t, tuple):
                 tv = t[0]
                 if rm.inverted(r) and not rm.noop:
-                    tr = (tv, r[:-3], v)
+                    tr = (tv, rm.invert_role(r), v)
                 else:
                     tr = (v, r, tv)
                 emit(tr, alns)
@@ -104,7 +104,7 @@ def interpret(node, rm):
                 if ta is not None:
                     alns.append(('target', parse_aln(ta)))
                 if rm.inverted(r) and not rm.noop and a in variables:
-                    tr = (a, r[:-3], v)
+                    tr = (a, rm.invert_role(r), v)
                 else:
                     tr = (v, r, a)
                 emit(tr, alns)
